@@ -7,7 +7,7 @@
     H_p_support / H_f0 / H_p00, re-checked numerically per explored grid by
     tools/props/C01.py (table obligations). *)
 From Dino Require Import Base.Ops Base.Sums Base.Inst Model.SHT Model.SHTFast Model.FourierR
-  Thm.SHT Thm.SHTFast Thm.FourierR Gen.GridTable Gen.Legendre Gen.DerivExprs Model.Legendre Thm.Legendre.
+  Thm.SHT Thm.SHTFast Thm.FourierR Gen.GridTable Gen.Legendre Gen.DerivExprs Model.Legendre Thm.Legendre Thm.LegendrePoly.
 From Coq Require Import Reals Qcanon Lra.
 Local Open Scope F_scope.
 
@@ -379,6 +379,88 @@ Proof.
   split. { qc. } split. { qc. } split. { qc. } qc.
 Qed.
 
+(** *** polynomial structure of the Legendre table (Thm/LegendrePoly.v): coefficient lists
+    [leg_q sq m l] produced by the SAME generated recurrence step run on coefficient lists *)
+Section C01_LegendrePoly.
+  Context {F : Type} {o : Ops F} {Fc : FieldC o}.
+  Variable sq : F -> F.
+  Variable nx : nat.
+  Variables x y : nat -> F.
+
+  (** p[m,i,l] = y_i^m q_{m,l}(x_i) for every node table; degree q_{m,l} <= l - m *)
+  Theorem C01_legendre_poly_factor n_m n_l m i l : (n_m <= n_l)%nat -> (i < nx)%nat ->
+    legendre_evaluate sq nx x y n_m n_l m i l
+    = (if Nat.ltb m n_m && Nat.leb m l && Nat.ltb l n_l then lpow (y i) m * peval (leg_q sq m l) (x i) else 0)
+    /\ (length (leg_q sq m l) <= l - m + 1)%nat.
+  Proof. intros H1 H2. split; [exact (legendre_evaluate_poly sq nx x y n_m n_l m i l H1 H2) | exact (leg_q_degree sq m l)]. Qed.
+
+  (** the Gram integrand is the value of ONE polynomial of degree <= l + l' (y^2 = 1 - x^2) *)
+  Theorem C01_legendre_gram_integrand n_m n_l m i l l' :
+    (n_m <= n_l)%nat -> (i < nx)%nat -> (m < n_m)%nat ->
+    (m <= l)%nat -> (l < n_l)%nat -> (m <= l')%nat -> (l' < n_l)%nat ->
+    y i * y i = leg_y2 (x i) ->
+    legendre_evaluate sq nx x y n_m n_l m i l * legendre_evaluate sq nx x y n_m n_l m i l'
+    = peval (leg_gram_poly sq m l l') (x i)
+    /\ (length (leg_gram_poly sq m l l') <= l + l' + 1)%nat.
+  Proof.
+    intros. split; [now apply (legendre_gram_integrand sq nx x y n_m n_l) | now apply leg_gram_poly_degree].
+  Qed.
+
+  (** a rule exact to degree D (it integrates x^n, n <= D, to mom n): the discrete Gram entry is the
+      functional [pint mom] of that polynomial whenever l + l' <= D - independent of the nodes *)
+  Theorem C01_legendre_gram_is_moment_functional (w mom : nat -> F) D n_m n_l m l l' :
+    (forall n, (n <= D)%nat -> sumn nx (fun j => w j * lpow (x j) n) = mom n) ->
+    (n_m <= n_l)%nat -> (m < n_m)%nat ->
+    (m <= l)%nat -> (l < n_l)%nat -> (m <= l')%nat -> (l' < n_l)%nat -> (l + l' <= D)%nat ->
+    (forall i, (i < nx)%nat -> y i * y i = leg_y2 (x i)) ->
+    sumn nx (fun i => w i * (legendre_evaluate sq nx x y n_m n_l m i l * legendre_evaluate sq nx x y n_m n_l m i l'))
+    = pint mom (leg_gram_poly sq m l l').
+  Proof. intros H. exact (legendre_gram_is_moment_functional sq nx x y w mom D H n_m n_l m l l'). Qed.
+
+  (** H_legendre_orth_deg from a node-free statement about the functional *)
+  Theorem C01_legendre_orth_deg_from_functional (w mom : nat -> F) D M L :
+    (forall n, (n <= D)%nat -> sumn nx (fun j => w j * lpow (x j) n) = mom n) ->
+    (M <= L)%nat ->
+    (forall i, (i < nx)%nat -> y i * y i = leg_y2 (x i)) ->
+    (forall m l l', (m < M)%nat -> (m <= l)%nat -> (l < L)%nat -> (m <= l')%nat -> (l' < L)%nat -> (l + l' <= D)%nat ->
+       pint mom (leg_gram_poly sq m l l') = delta l l') ->
+    H_legendre_orth_deg (modal_rows_real M) L nx
+      (fun a j l => legendre_evaluate sq nx x y M L (mabs_real a) j l) w mabs_real D.
+  Proof. intros H. exact (legendre_orth_deg_from_functional sq nx x y w mom D H M L). Qed.
+
+  (** on a grid that resolves its truncation: the full H_legendre_orth *)
+  Theorem C01_legendre_orth_resolves (w mom : nat -> F) spacing I M L :
+    resolves spacing I nx M L = true ->
+    (forall n, (n <= exact_degree spacing nx)%nat -> sumn nx (fun j => w j * lpow (x j) n) = mom n) ->
+    (forall i, (i < nx)%nat -> y i * y i = leg_y2 (x i)) ->
+    (forall m l l', (m < M)%nat -> (m <= l)%nat -> (l < L)%nat -> (m <= l')%nat -> (l' < L)%nat ->
+       pint mom (leg_gram_poly sq m l l') = delta l l') ->
+    H_legendre_orth (modal_rows_real M) L nx
+      (fun a j l => legendre_evaluate sq nx x y M L (mabs_real a) j l) w mabs_real.
+  Proof. exact (legendre_orth_resolves sq nx x y w mom spacing I M L). Qed.
+End C01_LegendrePoly.
+
+(** non-vacuity over Qc: Simpson's rule on the nodes -1, 0, 1 (y = 0, 1, 0) is exact to degree 3 *)
+Definition px (i : nat) : Qc := exq [-1; 0; 1]%Q i.
+Definition py (i : nat) : Qc := exq [0; 1; 0]%Q i.
+Definition pw (i : nat) : Qc := exq [1#3; 4#3; 1#3]%Q i.
+Definition pmom (n : nat) : Qc := exq [2; 0; 2#3; 0]%Q n.
+
+Example C01_legendre_poly_nonvacuous :
+  (forall n, (n <= 3)%nat -> sumn 3 (fun j => pw j * lpow (px j) n) = pmom n) /\
+  (forall i, (i < 3)%nat -> py i * py i = leg_y2 (px i)) /\
+  peval (leg_q lsq 1 2) (Q2Qc (1#2)) = Q2Qc (-15#8) /\ length (leg_q lsq 1 2) = 2%nat /\
+  length (leg_gram_poly lsq 1 1 2) = 4%nat /\
+  sumn 3 (fun i => pw i * (legendre_evaluate lsq 3 px py 2 3 1%nat i 1%nat * legendre_evaluate lsq 3 px py 2 3 1%nat i 1%nat))
+  = pint pmom (leg_gram_poly lsq 1 1 1) /\
+  pint pmom (leg_gram_poly lsq 1 1 1) = Q2Qc (3#4).
+Proof.
+  split. { intros n Hn. destruct n as [|[|[|[|n]]]]; try lia; qc. }
+  split. { intros i Hi. destruct i as [|[|[|i]]]; try lia; qc. }
+  split. { qc. } split. { vm_compute; reflexivity. } split. { vm_compute; reflexivity. }
+  split; qc.
+Qed.
+
 Print Assumptions C01_sht_gram.
 Print Assumptions C01_sht_roundtrip.
 Print Assumptions C01_sht_roundtrip_bandlimited.
@@ -406,3 +488,9 @@ Print Assumptions C01_legendre_three_term_eps.
 Print Assumptions C01_legendre_eps_sq.
 Print Assumptions C01_legendre_radicands.
 Print Assumptions C01_legendre_nonvacuous.
+Print Assumptions C01_legendre_poly_factor.
+Print Assumptions C01_legendre_gram_integrand.
+Print Assumptions C01_legendre_gram_is_moment_functional.
+Print Assumptions C01_legendre_orth_deg_from_functional.
+Print Assumptions C01_legendre_orth_resolves.
+Print Assumptions C01_legendre_poly_nonvacuous.
